@@ -641,6 +641,73 @@ fn limit(run: &Run) {
     }
 }
 
+/// (d) the size limit is one rule on every path. For every entry size 960..=1026 x 0, 1 or 2 parents, and for a 4-byte entry
+/// with 0..=40 parents (an entry that joins many concurrent branches): the op enters through `add_op` iff the entry is
+/// within the limit — the statement's limit is on the entry, whatever its place in the history — and a state reached
+/// that way is valid for every other replica: `verify()` accepts it, `verified_merge` into a replica holding the parents
+/// accepts it and both then hold the same ops.
+fn size_boundary(run: &Run) {
+    use rigs::fixtures::bls_sk;
+    let owner = bls_sk(1);
+    for (pname, perms) in [("owner-only", Permissions::default()), ("anyone", Permissions::new_anyone_can_write())] {
+        let base = signed_base(&owner, XorName::from_content(b"c06-size"), perms);
+        let addr = *base.address();
+        let mut crdt = RegisterCrdt::new(addr);
+        let none: BTreeSet<EntryHash> = BTreeSet::new();
+        // 40 concurrent roots, held by both replicas
+        let mut roots = vec![];
+        let mut with_roots = base.clone();
+        for i in 0..40u32 {
+            let (h, _, d) = crdt.write(format!("root-{i}").into_bytes(), &none).unwrap();
+            let op = RegisterOp::new(addr, d, &owner);
+            if with_roots.add_op(op).is_err() {
+                run.violation("op-admission", "authorised-op-refused", format!("a small root entry by the owner was refused ({pname})"), json!({"engine": "size-boundary"}));
+                return;
+            }
+            roots.push(h);
+        }
+        let mut cases: Vec<(usize, usize)> = vec![];
+        for size in 960..=MAX_ENTRY_SIZE + 2 {
+            for parents in 0..=2usize {
+                cases.push((size, parents));
+            }
+        }
+        for parents in 0..=40usize {
+            cases.push((4, parents));
+        }
+        for (size, parents) in cases {
+            let desc = json!({"engine": "size-boundary", "permissions": pname, "entry_bytes": size, "parents": parents});
+            run.case(desc.to_string().as_bytes(), true);
+            let ps: BTreeSet<EntryHash> = roots.iter().take(parents).cloned().collect();
+            let mut c2 = crdt.clone();
+            let (_, _, d) = c2.write(vec![0xcd; size], &ps).unwrap();
+            let op = RegisterOp::new(addr, d, &owner);
+            let mut a = with_roots.clone();
+            let res = a.add_op(op.clone());
+            let want = size <= MAX_ENTRY_SIZE;
+            if res.is_ok() != want {
+                run.violation("op-admission", if want { "entry-within-the-limit-refused" } else { "oversized-op-admitted" }, format!("add_op of a {size}-byte entry with {parents} parents ({pname}): {res:?}"), desc.clone());
+                continue;
+            }
+            if !want {
+                continue;
+            }
+            if let Err(e) = a.verify() {
+                run.violation("reachable-state-valid", "add_op-state-fails-verify", format!("a replica that accepted a {size}-byte entry with {parents} parents through add_op fails verify(): {e:?} ({pname})"), desc.clone());
+            }
+            let mut b = with_roots.clone();
+            match b.verified_merge(&a) {
+                Err(e) => run.violation("reachable-state-valid", "add_op-state-refused-by-verified_merge", format!("another replica refuses the state reached by accepting a {size}-byte entry with {parents} parents: {e:?} ({pname})"), desc.clone()),
+                Ok(()) => {
+                    if b.ops() != a.ops() {
+                        run.violation("convergence", "size-boundary", format!("after verified_merge the replicas differ ({size}-byte entry, {parents} parents, {pname})"), desc.clone());
+                    }
+                }
+            }
+        }
+    }
+}
+
 pub fn main(tier: Option<&str>) {
     let run = Run::new("C06", "model_checking", tier);
     run.rule(
@@ -648,7 +715,7 @@ pub fn main(tier: Option<&str>) {
          settings; every permutation (+ one duplication) of every subset through RegisterCrdt::apply_op. (b) BFS, clone mode: 2(3) real \
          SignedRegister replicas x 3 permission settings, actions Deliver(op in 11-op pool, r), Merge/verified_merge(r->s), verify/verified_merge of a hand-built register carrying an op that must not enter, merge/verified_merge with three \
          different base registers (another meta; the same address with other owner-signed permissions, empty and carrying an op valid only under those); state key = per replica the set of pool ops held. (c) BFS across the entry limit from replicas pre-filled to \
-         1022..1024 entries. Non-trivial = involves at least two distinct operands.",
+         1022..1024 entries. (d) every entry size 960..=1026 x 0..2 parents and a 4-byte entry with 0..=40 parents, two permission settings: add_op admission, then verify() and verified_merge by another replica. Non-trivial = involves at least two distinct operands.",
     );
     run.assume("fixed BLS keys (owner, writer, stranger); 11-op pool (authorised, stranger, forged signature, a re-signed copy, a genuine op's value+source+signature on a node with other children, oversized, max-size, foreign address); entry contents fixed");
     run.assume("in an anyone-can-write register the statement does not demand signature checking; forged signatures are not judged there");
@@ -663,6 +730,7 @@ pub fn main(tier: Option<&str>) {
         let _ = &fx.owner;
     }
     limit(&run);
+    size_boundary(&run);
     run.finish();
 }
 
